@@ -31,6 +31,7 @@ sq = Const('sq', SeqOb.sort()); i_, k_ = Consts('i_ k_', IntSort())
 P_ = Const('P_', SetProd.sort())
 W.axioms.append(ForAll([x], Implies(isEps(x), Not(isVar(x)))))
 
+def mkprod(h_, b_): return Prod.make(head=Sym(Ob, h_), body=Sym(SeqOb, b_)).term
 def head(p): return Prod.get(Sym(Prod, p), 'head').term
 def body(p): return Prod.get(Sym(Prod, p), 'body').term
 InBody = Function('InBody', SeqOb.sort(), Ob.sort(), BoolSort())      # x occurs in the sequence
@@ -59,13 +60,15 @@ W.axioms.append(ForAll([sq], And(Length(Rev(sq)) == Length(sq),
                                  ForAll([k_], Implies(And(0 <= k_, k_ < Length(sq)), Rev(sq)[k_] == sq[Length(sq) - 1 - k_])))))
 # consequence of the definition (k -> |s|-1-k is a bijection of the positions; List.mem_reverse in Lean: bridge/cfgrev.lean)
 W.axioms.append(ForAll([sq, x], InBody(Rev(sq), x) == InBody(sq, x)))
+W.axioms.append(ForAll([sq], NoEps(Rev(sq)) == NoEps(sq)))          # immediate from the previous line and the definition of NoEps
 W.lemmas = {'mem_reverse': 'bridge/cfgrev.lean'}
 W.seq_reverse = lambda term: Rev(term)
 
 def WF(G):
     """class invariant established by the constructor: symbols of the productions are registered, bodies hold no epsilon object"""
-    return And(G.V[G.S], ForAll([pr], Implies(G.P[pr], And(G.V[head(pr)], NoEps(body(pr)),
-               ForAll([x], Implies(InBody(body(pr), x), If(isVar(x), G.V[x], G.Tm[x])))))),
+    return And(G.V[G.S], ForAll([pr], Implies(G.P[pr], G.V[head(pr)]), patterns=[G.P[pr]]),
+               ForAll([pr], Implies(G.P[pr], NoEps(body(pr))), patterns=[G.P[pr]]),
+               ForAll([pr, x], Implies(And(G.P[pr], InBody(body(pr), x)), If(isVar(x), G.V[x], G.Tm[x])), patterns=[MultiPattern(G.P[pr], InBody(body(pr), x))]),
                ForAll([x], Implies(G.V[x], isVar(x))), ForAll([x], Implies(G.Tm[x], Not(isVar(x)))))
 
 # CFG(variables, terminals, start_symbol, productions): registers the symbols of the productions
@@ -92,19 +95,30 @@ def cfg_ctor(eng, e, st):
 W.ctors['CFG'] = cfg_ctor
 
 # ------------------------------------------------------------------ reverse
+def rev_of(q_, p_): return And(head(q_) == head(p_), body(q_) == Rev(body(p_)))
 W.contract(Contract('CFG.reverse', [('self', CFGT)], ret=CFGT, fresh_result=True, requires=lambda o: WF(o.self),
-    ensures=lambda o, r, n: And(ForAll([pr2], r.P[pr2] == Exists([pr], And(o.self.P[pr], head(pr2) == head(pr), body(pr2) == Rev(body(pr))))),
+    ensures=lambda o, r, n: And(ForAll([pr2], Implies(r.P[pr2], Exists([pr], And(o.self.P[pr], rev_of(pr2, pr)))), patterns=[r.P[pr2]]),
+                                ForAll([pr], Implies(o.self.P[pr], r.P[mkprod(head(pr), Rev(body(pr)))]), patterns=[o.self.P[pr]]),
                                 r.S == o.self.S, r.V == o.self.V, r.Tm == o.self.Tm, WF(r)),
     locals={'productions': BagProd},
     loops={'0': lambda e, done: And(ForAll([pr2], e.productions[pr2] >= 0),
-                                    ForAll([pr2], (e.productions[pr2] > 0) == Exists([pr], And(done[pr], head(pr2) == head(pr), body(pr2) == Rev(body(pr))))))}))
+                                    ForAll([pr2], Implies(e.productions[pr2] > 0, Exists([pr], And(done[pr], rev_of(pr2, pr)))), patterns=[e.productions[pr2]]),
+                                    ForAll([pr], Implies(done[pr], e.productions[mkprod(head(pr), Rev(body(pr)))] > 0), patterns=[done[pr]]))}))
 
 # ------------------------------------------------------------------ get_reachable_symbols
 S_ = Const('S_', Ob.sort())
 CReach = Function('CReach', SetProd.sort(), Ob.sort(), Ob.sort(), BoolSort())     # x occurs in a sentential form derivable from s
 def occurs(P, a_, x_): return Exists([pr], And(Select(P, pr), head(pr) == a_, InBody(body(pr), x_), Not(isEps(x_))))
 W.axioms += [ForAll([P_, S_], CReach(P_, S_, S_)),
-             ForAll([P_, S_, y, z], Implies(And(CReach(P_, S_, y), occurs(P_, y, z)), CReach(P_, S_, z)))]
+             ForAll([P_, S_, pr, z], Implies(And(Select(P_, pr), CReach(P_, S_, head(pr)), InBody(body(pr), z), Not(isEps(z))), CReach(P_, S_, z)),
+                    patterns=[MultiPattern(Select(P_, pr), CReach(P_, S_, head(pr)), InBody(body(pr), z))])]
+def closed_occ(rs, P, guard=lambda h_: BoolVal(True)):
+    """rs is closed under `occurs` (for heads satisfying `guard`), written over the production so that it triggers on P[pr], InBody(body pr, z)"""
+    return ForAll([pr, z], Implies(And(Select(P, pr), Select(rs, head(pr)), guard(head(pr)), InBody(body(pr), z), Not(isEps(z))), Select(rs, z)),
+                  patterns=[MultiPattern(Select(P, pr), InBody(body(pr), z))])
+def creach_induction2(P, s0, Pset):
+    yy = Const('ci_y', Ob.sort())
+    return Implies(And(Select(Pset, s0), closed_occ(Pset, P)), ForAll([yy], Implies(CReach(P, s0, yy), Select(Pset, yy)), patterns=[CReach(P, s0, yy)]))
 def creach_induction(P, s0, Pset):
     """sound for the least fixpoint: Pset contains s0 and is closed under `occurs`  =>  CReach(P, s0, .) is inside Pset"""
     yy, zz = Consts('ci_y ci_z', Ob.sort())
@@ -126,20 +140,22 @@ def reach_inv(inner):
         P, S, rs, tp = e.self.P.term, e.self.S.term, e.r_symbols, e.to_process
         skip = (lambda yy: yy != e.current.term) if inner else (lambda yy: BoolVal(True))
         cl = [d_final(e), rs[S], ForAll([y], Implies(rs[y], CReach(P, S, y))), ForAll([y], tp[y] >= 0), ForAll([y], Implies(tp[y] > 0, rs[y])),
-              ForAll([y, z], Implies(And(rs[y], tp[y] == 0, skip(y), occurs(P, y, z)), rs[z]))]
+              closed_occ(rs.term, P, lambda h_: And(Select(tp.term, h_) == 0, skip(h_)))]
         if inner: cl += [rs[e.current], ForAll([z], Implies(done[z] > 0, rs[z]))]
         return And(cl)
     return inv
 W.contract(Contract('CFG.get_reachable_symbols', [('self', CFGT)], ret=SetOb,
-    ensures=lambda o, r, n: ForAll([x], r[x] == CReach(o.self.P.term, o.self.S.term, x)),
+    ensures=lambda o, r, n: And(ForAll([x], Implies(r[x], CReach(o.self.P.term, o.self.S.term, x)), patterns=[r[x]]),
+                                ForAll([x], Implies(CReach(o.self.P.term, o.self.S.term, x), r[x]), patterns=[CReach(o.self.P.term, o.self.S.term, x)])),
     locals={'r_symbols': SetOb, 'reachable_transition_d': MapOB},
     loops={'0': lambda e, done: d_inv(e, lambda p_, x_: done[p_]),
            '0.0': lambda e, i: And(ddom(e, head(e.production.term)),
                                    d_inv(e, lambda p_, x_: Or(e.get('$done0')[p_],
                                          And(p_ == e.production.term, Exists([k_], And(0 <= k_, k_ < i.term, body(p_)[k_] == x_)))))),
            '1': reach_inv(False), '1.0': reach_inv(True)},
-    loop_post={'0': d_final},
-    hints=lambda o, e, r: [creach_induction(o.self.P.term, o.self.S.term, r.term)]))
+    loop_post={'0': d_final,
+               '1': lambda e: closed_occ(e.r_symbols.term, e.self.P.term)},      # closed under `occurs` at exit
+    hints=lambda o, e, r: [creach_induction2(o.self.P.term, o.self.S.term, r.term)]))
 
 # ------------------------------------------------------------------ utils_cfg.get_productions_d
 MapOP = TMap(Ob, BagProd)
@@ -188,7 +204,6 @@ W.contract(Contract('CFG.get_unit_pairs', [('self', CFGT)], ret=SetPair,
     hints=lambda o, e, r: [ForAll([A], Implies(o.self.V[A], ureach_induction(o.self.P.term, A, Lambda([y], r[pair(A, y)]))))]))
 
 # ------------------------------------------------------------------ eliminate_unit_productions
-def mkprod(h_, b_): return Prod.make(head=Sym(Ob, h_), body=Sym(SeqOb, b_)).term
 def eu_inv(level):
     def inv(e, done):
         G, P, U = e.self, e.self.P, e.unit_pairs
